@@ -71,6 +71,7 @@ func execC18(t *testing.T, c C18Case) (v Verdict) {
 		var mu sync.Mutex
 		var conns []*c18Conn // in announcement order
 		live := map[string]*c18Conn{}
+		dead := map[string]*c18Conn{} // the last cancelled life of each key
 		pauseNext := map[string]bool{}
 		runReturned := false
 		// readers: one goroutine per announced logical connection, consuming everything unless paused
@@ -253,6 +254,22 @@ func execC18(t *testing.T, c C18Case) (v Verdict) {
 				cn := live[k]
 				mu.Unlock()
 				if cn == nil {
+					// a write on the connection of a key's cancelled life fails, whatever the envelope carries
+					if dc := dead[k]; dc != nil && !stopped {
+						tok++
+						id := tok
+						done := make(chan error, 1)
+						go func() { done <- dc.rw.Write(bg, c18Env(id, "srv", k)) }()
+						kit.Settle()
+						select {
+						case err := <-done:
+							if err == nil {
+								v.failf("write of envelope id %d on the cancelled logical connection %s succeeded", id, k)
+							}
+						default:
+							v.failf("write on the cancelled logical connection %s blocked", k)
+						}
+					}
 					break
 				}
 				tok++
@@ -287,6 +304,7 @@ func execC18(t *testing.T, c C18Case) (v Verdict) {
 				delete(live, k)
 				mu.Unlock()
 				if cn != nil {
+					dead[k] = cn
 					cn.mu.Lock()
 					if cn.paused {
 						pausedCancel = true
@@ -597,8 +615,12 @@ func execC18Parked(t *testing.T, c C18Parked) (v Verdict) {
 		}
 		mu.Unlock()
 		// new operations on the cancelled connection fail at once
-		if err := rw0.Write(bg, &goat.Rpc{Id: 999}); err == nil {
-			v.failf("write on the cancelled logical connection succeeded")
+		// (whatever the envelope carries: a closing envelope with a trailer or a status, a reset, a bare id)
+		for i, r := range []*goat.Rpc{{Id: 999}, c18Env(1001, "srv", "k0"), c18Env(1002, "srv", "k0"), c18Env(1005, "srv", "k0"), c18Env(1008, "srv", "k0"),
+			{Id: 1011, Trailer: &goatorepo.Trailer{}}, {Id: 1012, Status: &goatorepo.ResponseStatus{}, Trailer: &goatorepo.Trailer{}}, {Id: 1013, Reset_: &goatorepo.Reset{Type: "RST_STREAM"}}} {
+			if err := rw0.Write(bg, r); err == nil {
+				v.failf("write #%d (id %d, trailer=%v status=%v reset=%v) on the cancelled logical connection succeeded", i, r.GetId(), r.GetTrailer() != nil, r.GetStatus() != nil, r.GetReset_() != nil)
+			}
 		}
 		shared.B.Hold(nil)
 		for _, h := range shared.Held() {
